@@ -110,6 +110,22 @@ def instances(tier, seed):
             for qa in range(n):
                 for la in lib.label_structures(kinds, bonds_a, 1, qa, values=vals, cap=1, stride_seed=seed):
                     add("mpdm_from_mps", kinds=kinds, bonds_a=bonds_a, qntot=1, qnidx_a=qa, qn_a=la, kind="real")
+    if tier == "quick":
+        # complex entries and prefactors for every operation on the two-site structures (a missing or doubled conjugation is invisible with real numbers);
+        # the thorough tier uses complex entries throughout
+        seen = {}
+        for inst in list(out):
+            if len(inst["kinds"]) != 2 or inst.get("kind") != "real" or inst["op"] == "distance":
+                continue      # (distance with complex prefactors: a square root of a complex quadratic form, minutes per instance - thorough tier only)
+            k = (inst["op"], inst.get("qnidx_a"), inst.get("qnidx_b"), inst.get("qnidx_o"))
+            if seen.get(inst["op"], 0) >= 3 or k in seen:
+                continue
+            seen[k] = 1
+            seen[inst["op"]] = seen.get(inst["op"], 0) + 1
+            d = dict(inst)
+            d["kind"] = "cplx"
+            d["label"] = inst["label"].replace("kind=real", "kind=cplx")
+            out.append(d)
     return out
 
 
